@@ -127,7 +127,7 @@ def report(out, prop, name, rows, scenario, res, kf_desc):
         ev = rows[line - 1]
         k = ev["k"]
         start = k
-        while start > 0 and not (scenario[start]["c"] == "open" and not any(
+        while start > 0 and scenario[start]["c"] != "crashrun" and not (scenario[start]["c"] == "open" and not any(
                 s.get("path") == scenario[start].get("path") and s["c"] == "open" for s in scenario[:start])):
             start -= 1
         if start > 0 and scenario[start - 1]["c"] == "arm":
@@ -154,6 +154,7 @@ def run_c16(tier, out, prop="C16"):
     total = fired = nontriv = 0
     traces = 0
     fault_points = 0
+    crashes = 0
     seen = set()
     for idx, h in enumerate([(2 if i < (10 if quick else 60) else 3, h) for i, h in enumerate(hs)] + [(20, h) for h in bigs]):
         d, h = h
@@ -208,11 +209,27 @@ def run_c16(tier, out, prop="C16"):
                 if key not in seen:
                     seen.add(key)
                     nontriv += 1
+        # crash points: the process dies inside the k-th storage operation (child process, H1 in abort mode); a flush
+        # in the middle of the history fixes what must survive
+        if d <= 5 and (not quick or idx < 5):
+            hc = list(h)
+            hc.insert(len(hc) // 2, {"c": "flush"})
+            cks = sorted(set([1, 5, 6, w + 1, w + 3] + rnd.sample(range(1, w + 2), min(3 if quick else w, w))))
+            csc = [{"c": "crashrun", "d": d, "path": f"c{idx}_{k}", "cfg": cfg, "crash_at": k, "hist": hc} for k in cks]
+            tp, tb = execute(binary, wd, f"crash{idx}", csc)
+            crow = read_ndjson(tp)
+            res = judge(prop, wd, f"crash{idx}", tp, tb, kf_names)
+            if res["depth"] is None or res["depth"] - 1 != len(crow):
+                raise ToolError(f"judge consumed {res['depth']} of {len(crow)} lines for crash{idx}")
+            report(out, prop, f"crash{idx}", crow, csc, res, kf_desc)
+            total += len(crow)
+            traces += 1
+            crashes += sum(1 for r in crow if r["t"] == "crash" and r.get("aborted"))
         if idx == 1:
             out.sample({"scenario": "fault enumeration", "history": h, "storage_operations": w, "fault_positions": ks,
                         "first_fired_event": next(({kk: r[kk] for kk in r if kk != "obs"} for r in rows if r.get("fired")), None)})
     out.add(evaluations=total, distinct_nontrivial=max(nontriv, traces), traces_validated_against_impl=traces,
-            fault_positions_injected=fault_points, faults_fired=fired,
+            fault_positions_injected=fault_points, faults_fired=fired, crash_points_hit=crashes,
             rule="one evaluation = one recorded call/open/reopen judged by Trace_Storage.tla; a fault case = (history, "
                  "k-th storage operation) with the hook armed; distinct non-trivial = distinct (history, call hit, "
                  "position inside the call) in which the hook actually fired",
